@@ -115,10 +115,14 @@ var sigTimes = []struct {
 	t    time.Time
 }{
 	{"t2011", time.Unix(1322443956, 0)},
-	{"t2040", time.Date(2040, 1, 2, 3, 4, 5, 0, time.UTC)},
+	// before the signing keys were created (2010/2011): perkeep back-dates signatures to the
+	// claim date on purpose, a signature older than its key must verify. (Times before 1970
+	// wrap around in OpenPGP's 32-bit creation time, so they are "later" than the key.)
+	{"t2005", time.Date(2005, 6, 1, 0, 0, 0, 0, time.UTC)},
 	// thorough only:
 	{"tzero", time.Time{}},
 	{"t1960", time.Date(1960, 6, 1, 0, 0, 0, 0, time.UTC)},
+	{"t2040", time.Date(2040, 1, 2, 3, 4, 5, 0, time.UTC)},
 	{"t2110", time.Date(2110, 1, 1, 0, 0, 0, 0, time.UTC)},
 }
 
